@@ -327,6 +327,13 @@ class Fn:
                 stack.extend(self.preds(x))
         return body
 
+    def loop_blocks(self):
+        """blocks inside any natural loop"""
+        out = set()
+        for h in self.loop_headers():
+            out |= self.natural_loop(h)
+        return out
+
     def loop_headers(self):
         return sorted({h for _, h in self.back_edges()})
 
